@@ -193,7 +193,9 @@ impl Engine for VcUpdate {
         let it = words_upto(nseg, s).filter(move |segs| {
             // quick: in two-segment documents the first segment comes from a core subset (all prose / front-matter /
             // verbatim / glued-title segments and every fifth scrut block variant); thorough: everything
-            !(quick && segs.len() == 2 && segs[0] >= 12 && (segs[0] - 12) % 5 != 0)
+            // (three-segment documents: the same restriction on the first segment, the other two range over everything)
+            let core = |i: usize| i < 12 || (i - 12) % 5 == 0;
+            !((quick && segs.len() == 2 && !core(segs[0])) || (segs.len() == 3 && !core(segs[0])))
         }).flat_map(move |segs| {
             let total: usize = segs.iter().map(|i| lens[*i]).sum();
             let first_of_last = total - segs.last().map(|i| lens[*i]).unwrap_or(0);
@@ -202,12 +204,14 @@ impl Engine for VcUpdate {
                 let segs = segs.clone();
                 let _ = &lens;
                 [false, true].into_iter().flat_map(move |crlf| {
-                    // number of tests is only known after parsing: enumerate outcome vectors up to 3 tests lazily in check
-                    // here: one case per outcome vector index 0..4^3, filtered in check by the actual test count
+                    // the number of tests decides how many outcome vectors there are: tokenize once per document
+                    let reference = tokenize(&doc_text(&segs, keep, crlf));
+                    let n = (reference.tests.len() + matches!(reference.unterminated, Some(Unterminated::ScrutFence { body: Body::Test { .. } })) as usize).min(3);
                     let segs = segs.clone();
-                    (0..216u8).map(move |code| {
-                        let o = |v: u8| if v == 5 { 5 } else { v };
-                        UpdCase { segs: segs.clone(), keep, crlf, outcomes: vec![o(code % 6), o((code / 6) % 6), o(code / 36)], cli_doc: None, stderr: false }
+                    let count = 6u32.pow(n as u32); // 1, 6, 36, 216
+                    (0..count.max(1)).filter(move |code| !crlf || *code < 6).map(move |code| {
+                        let code = code as u8;
+                        UpdCase { segs: segs.clone(), keep, crlf, outcomes: vec![code % 6, (code / 6) % 6, code / 36], cli_doc: None, stderr: false }
                     })
                 })
             })
@@ -221,22 +225,14 @@ impl Engine for VcUpdate {
         });
         Box::new(it.chain(on_stderr).chain(cli))
     }
-    fn relevant(&self, _property: &str, case: &UpdCase) -> bool {
-        // CRLF variants only for the all-pass and first-fails vectors (line endings are orthogonal to outcomes)
-        if case.cli_doc.is_some() {
-            return true;
-        }
-        if case.crlf && !case.outcomes.iter().skip(1).all(|o| *o == 0) {
-            return false;
-        }
-        // outcome vectors that only differ beyond the number of tests are duplicates
-        let reference = tokenize(&doc_text(&case.segs, case.keep, case.crlf));
-        let n = reference.tests.len() + matches!(reference.unterminated, Some(Unterminated::ScrutFence { body: Body::Test { .. } })) as usize;
-        case.outcomes.iter().skip(n).all(|o| *o == 0)
+    fn relevant(&self, _property: &str, _case: &UpdCase) -> bool {
+        // pruning happens at generation: CRLF variants only for vectors that differ in the first test (line endings are
+        // orthogonal to outcomes), and only 6^n outcome vectors for a document with n tests
+        true
     }
     fn bound(&self, tier: Tier) -> String {
         format!(
-            "all documents of <= {} segments (quick: first segment of two-segment documents from a core subset) over vc_md's {} segments with every truncation inside the last segment (LF; CRLF for outcome vectors that differ in the first test only) that the parser accepts x every outcome vector in {{pass, changed output, changed exit code, changed output without final newline, exit code 0 instead of the expected one, changed output with fence look-alikes}}^n for the n <= 3 tests x 3 successive applications of update; single-segment documents also with stderr as the validated stream (stdout carrying other text); end-to-end documents with real commands incl. output_stream stderr/combined",
+            "all documents of <= {} segments (quick: first segment of two-segment documents from a core subset; thorough: first segment of three-segment documents from that core subset - the full cube did not finish in 70 min) over vc_md's {} segments with every truncation inside the last segment (LF; CRLF for outcome vectors that differ in the first test only) that the parser accepts x every outcome vector in {{pass, changed output, changed exit code, changed output without final newline, exit code 0 instead of the expected one, changed output with fence look-alikes}}^n for the n <= 3 tests x 3 successive applications of update; single-segment documents also with stderr as the validated stream (stdout carrying other text); end-to-end documents with real commands incl. output_stream stderr/combined",
             if tier == Tier::Quick { 2 } else { 3 },
             segments().len()
         )
